@@ -186,6 +186,7 @@ def expected_line(layout, r):
 
 
 KNOWN = {}
+FORCE_WINDOW = False      # set by C03 when it runs this check for its own purpose (every case gets a window)
 
 
 def known_for(cls, pattern):
@@ -219,7 +220,7 @@ def run_case(seed, i, tier):
         bsz = rng.choice((64, size - 1, size, size + 1, 2 * size, 100, 1000, 4096))
         opts += ["--blocksz", str(max(64, bsz))]
     a = b = None
-    if rng.random() < 0.35:
+    if rng.random() < 0.35 or FORCE_WINDOW:
         ts = sorted(set(r["sec"] * NS + r["usec"] * 1000 for r in recs))
         a = c03.place(rng, ts) if rng.random() < 0.7 else None
         b = c03.place(rng, ts) if rng.random() < 0.7 else None
